@@ -170,6 +170,33 @@ def run(ctx: Ctx) -> None:
     dec = [c for a, c in chain if a == "decode"]
     ctx.ob("R13.2", "parser decodes unescaped bytes as UTF-8", bool(dec) and _decode_is_utf8(dec[-1]), "unslash result .decode() with default/utf-8 codec", sparse, unsl_call, "parser decode")
 
+    # the value stored for the pair is the unescaped text itself: nothing (strip, replace ...) is applied after unescaping
+    from ..cfg import cfg_of as _cfg_of
+    from ..dataflow import ReachingDefs as _RD
+
+    pcfg = _cfg_of(sparse)
+    prd = _RD(pcfg, sparse.params)
+    unsl_stmt = astq.stmt_of(sparse, unsl_call)
+    appends = [c for c in astq.method_calls(sparse.node, "append") if c.args and isinstance(c.args[0], ast.Tuple) and len(c.args[0].elts) == 2]
+    if len(appends) != 1:
+        raise AnalysisError("sansio.http.parse_cookie: expected one out.append((key, value))")
+    vexpr = appends[0].args[0].elts[1]
+    post_ok = isinstance(vexpr, ast.Name)
+    fact = f"stored value expression `{norm(vexpr)}`"
+    if post_ok:
+        quoted_if = astq.enclosing(unsl_call, (ast.If,))
+        defs = prd.reaching(pcfg.node_of(appends[0]), vexpr.id)
+        for d in defs:
+            if d.stmt is unsl_stmt:
+                continue
+            # any other definition must already be visible at the quoted-value test (i.e. made before unescaping)
+            tn = pcfg.node_of(quoted_if.test) if quoted_if is not None else None
+            before = tn is not None and d in prd.reaching(tn, vexpr.id)
+            if not before:
+                post_ok = False
+                fact = f"`{vexpr.id}` is rebound after unescaping: {norm(d.stmt) if d.stmt is not None else d.kind}"
+    ctx.ob("R13.2", "parsed value is stored exactly as unescaped", post_ok, fact, sparse, appends[0], "value stored as unescaped")
+
     # ---- R13.3 -----------------------------------------------------
     NQ, _rep = single_class(nq, 256)
     NQ_full, _ = single_class(nq, 0x3000)
